@@ -3,6 +3,7 @@
 package mc
 
 import (
+	"os"
 	"encoding/json"
 	"fmt"
 	"math"
@@ -329,6 +330,170 @@ func (e *c03Env) seq(st *KStats, pi int) {
 	}
 }
 
+
+// ---------------------------------------------------------------------------------------------
+// part "msgseq": every sequence (up to a depth) of swap MESSAGES of one trader on one pool, through
+// the real message handlers (routing layer included: single-hop, same-pool two- and three-hop
+// routes, exact-in and exact-out), prices unchanged. Oracle (dominance): with dA, dB the trader's
+// net balance changes, (a) not both >= 0 with one above the allowance (value from nothing), and
+// (b) if the trader net sold one asset, what it net received of the other is at most what the exact
+// fee-free weighted-product formula allows for the net amount on the START reserves (+ allowance
+// per hop). (A first version compared with one real swap of the net amount INCLUDING its fee; that
+// was a false alarm of the oracle: the tier module records the trader's portfolio after its first
+// swap, so later pieces legitimately get the membership discount — the property bounds swaps by
+// the formula "for any fee/discount", not by another fee-paying swap.)
+
+type c03Form struct {
+	Name string
+	Hops int
+	Mk   func(who Acct, pool uint64, a, b string, ra, rb sdkmath.Int) sdk.Msg
+}
+
+func c03Forms() []c03Form {
+	frac := func(r sdkmath.Int, den int64) sdkmath.Int {
+		v := r.QuoRaw(den)
+		if !v.IsPositive() {
+			v = sdkmath.OneInt()
+		}
+		return v
+	}
+	var fs []c03Form
+	for _, sz := range []struct {
+		n   string
+		den int64
+	}{{"big", 10}, {"small", 1000}} {
+		den := sz.den
+		fs = append(fs,
+			c03Form{"in_AB_" + sz.n, 1, func(who Acct, pool uint64, a, b string, ra, rb sdkmath.Int) sdk.Msg {
+				return swapIn(who, "", sdk.NewCoin(a, frac(ra, den)), 1, rin(pool, b))
+			}},
+			c03Form{"in_BA_" + sz.n, 1, func(who Acct, pool uint64, a, b string, ra, rb sdkmath.Int) sdk.Msg {
+				return swapIn(who, "", sdk.NewCoin(b, frac(rb, den)), 1, rin(pool, a))
+			}},
+			c03Form{"in_ABA_" + sz.n, 2, func(who Acct, pool uint64, a, b string, ra, rb sdkmath.Int) sdk.Msg {
+				return swapIn(who, "", sdk.NewCoin(a, frac(ra, den)), 1, rin(pool, b), rin(pool, a))
+			}},
+			c03Form{"in_BAB_" + sz.n, 2, func(who Acct, pool uint64, a, b string, ra, rb sdkmath.Int) sdk.Msg {
+				return swapIn(who, "", sdk.NewCoin(b, frac(rb, den)), 1, rin(pool, a), rin(pool, b))
+			}},
+			c03Form{"in_ABAB_" + sz.n, 3, func(who Acct, pool uint64, a, b string, ra, rb sdkmath.Int) sdk.Msg {
+				return swapIn(who, "", sdk.NewCoin(a, frac(ra, den)), 1, rin(pool, b), rin(pool, a), rin(pool, b))
+			}},
+			c03Form{"out_AB_" + sz.n, 1, func(who Acct, pool uint64, a, b string, ra, rb sdkmath.Int) sdk.Msg {
+				return swapOut(who, "", sdk.NewCoin(b, frac(rb, den)), 1<<62, rout(pool, a))
+			}},
+			c03Form{"out_BA_" + sz.n, 1, func(who Acct, pool uint64, a, b string, ra, rb sdkmath.Int) sdk.Msg {
+				return swapOut(who, "", sdk.NewCoin(a, frac(ra, den)), 1<<62, rout(pool, b))
+			}},
+			c03Form{"out_ABA_" + sz.n, 2, func(who Acct, pool uint64, a, b string, ra, rb sdkmath.Int) sdk.Msg {
+				return swapOut(who, "", sdk.NewCoin(a, frac(ra, den)), 1<<62, rout(pool, a), rout(pool, b))
+			}},
+		)
+	}
+	return fs
+}
+
+func (e *c03Env) msgseq(st *KStats, pi int, depth int) {
+	w := e.w
+	poolId := e.pools[pi]
+	base, _ := w.Ctx().CacheContext()
+	base = base.WithBlockHeight(w.Height() + 1).WithBlockTime(time.Unix(w.Env.Tm+5, 0).UTC())
+	p, _ := w.App.AmmKeeper.GetPool(base, poolId)
+	who := w.A("q8")
+	a, b := p.PoolAssets[0].Token.Denom, p.PoolAssets[1].Token.Denom
+	ra, rb := p.PoolAssets[0].Token.Amount, p.PoolAssets[1].Token.Amount
+	equal := p.PoolAssets[0].Weight.Equal(p.PoolAssets[1].Weight)
+	forms := c03Forms()
+	allow := func(reserve sdkmath.Int, hops int) float64 {
+		per := 1 + 2*float64FromInt(reserve)*1e-18
+		if !equal {
+			per = 1 + 1.0001e-8*float64FromInt(reserve)
+		}
+		return per * float64(hops)
+	}
+	find := func(f Finding, in interface{}) {
+		for _, x := range st.Findings {
+			if x.Sig() == f.Sig() {
+				return
+			}
+		}
+		st.Findings = append(st.Findings, KFinding{Finding: f, Input: in, Len: depth})
+	}
+	do := func(c sdk.Context, msg sdk.Msg) error {
+		cc, write := c.CacheContext()
+		_, err := w.App.MsgServiceRouter().Handler(msg)(cc, msg)
+		if err == nil {
+			// a swap message only queues a request; the amm end-blocker executes the queue — one
+			// message per block here (same-block batches are C04's subject)
+			w.App.AmmKeeper.EndBlocker(cc)
+			write()
+		}
+		return err
+	}
+	// reference: the exact fee-free weighted-product formula on the START reserves for the net
+	// amount sold (fees and tier discounts only ever lower what a trader gets; a fee-free
+	// constant-function pool is path independent, so no sequence can beat it)
+	wa, wb := float64FromInt(p.PoolAssets[0].Weight), float64FromInt(p.PoolAssets[1].Weight)
+	formula := func(sellA bool, n sdkmath.Int) float64 {
+		x, y, r := float64FromInt(ra), float64FromInt(rb), wa/wb
+		if !sellA {
+			x, y, r = y, x, wb/wa
+		}
+		return y * (1 - math.Pow(x/(x+float64FromInt(n)), r))
+	}
+	a0 := w.App.BankKeeper.GetBalance(base, who.Addr, a).Amount
+	b0 := w.App.BankKeeper.GetBalance(base, who.Addr, b).Amount
+	var rec func(c sdk.Context, path []string, hops int)
+	rec = func(c sdk.Context, path []string, hops int) {
+		if len(path) > 0 {
+			st.Sequences++
+			st.Clauses["msg_sequence"]++
+			dA := w.App.BankKeeper.GetBalance(c, who.Addr, a).Amount.Sub(a0)
+			dB := w.App.BankKeeper.GetBalance(c, who.Addr, b).Amount.Sub(b0)
+			fa, fb := float64FromInt(dA), float64FromInt(dB)
+			alA, alB := allow(ra, hops), allow(rb, hops)
+			in := map[string]interface{}{"part": "msgseq", "pool": pi, "path": append([]string{}, path...)}
+			if os.Getenv("VERIF_DEBUG_C03") != "" {
+				fmt.Fprintf(os.Stderr, "msgseq pool=%d %v dA=%s dB=%s\n", poolId, path, dA, dB)
+			}
+			switch {
+			case fa >= -0.5 && fb >= -0.5:
+				if fa > alA || fb > alB {
+					find(Finding{Clause: "sequence_gains_from_nothing", Culprit: "msg_swap", Disc: fmt.Sprintf("pool_weights_equal=%v", equal), Detail: fmt.Sprintf("pool %d: %v leaves the trader with %+.0f %s and %+.0f %s", poolId, path, fa, a, fb, b)}, in)
+				}
+			case dA.IsNegative() && dB.IsPositive():
+				ref := formula(true, dA.Neg())
+				st.Clauses["net_vs_formula"]++
+				if g := fb - ref; g > alB+ref*1e-12 {
+					find(Finding{Clause: "sequence_beats_fee_free_formula", Culprit: "msg_swap", Disc: fmt.Sprintf("pool_weights_equal=%v", equal), Detail: fmt.Sprintf("pool %d: %v net sells %s %s for %s %s; the fee-free formula on the start reserves allows %.0f (gain %+.0f, allowance %.3f)", poolId, path, dA.Neg(), a, dB, b, ref, g, alB)}, in)
+				}
+			case dB.IsNegative() && dA.IsPositive():
+				ref := formula(false, dB.Neg())
+				st.Clauses["net_vs_formula"]++
+				if g := fa - ref; g > alA+ref*1e-12 {
+					find(Finding{Clause: "sequence_beats_fee_free_formula", Culprit: "msg_swap", Disc: fmt.Sprintf("pool_weights_equal=%v", equal), Detail: fmt.Sprintf("pool %d: %v net sells %s %s for %s %s; the fee-free formula on the start reserves allows %.0f (gain %+.0f, allowance %.3f)", poolId, path, dB.Neg(), b, dA, a, ref, g, alA)}, in)
+				}
+			}
+		}
+		if len(path) >= depth {
+			return
+		}
+		for _, f := range forms {
+			cc, _ := c.CacheContext()
+			st.Evaluations++
+			if err := do(cc, f.Mk(who, poolId, a, b, ra, rb)); err != nil {
+				st.Clauses["msg_rejected"]++
+				if st.Extra != nil {
+					st.Extra["rejected_"+f.Name]++
+				}
+				continue
+			}
+			rec(cc, append(path, f.Name), hops+f.Hops)
+		}
+	}
+	rec(base, nil, 1)
+}
+
 // ---------------------------------------------------------------------------------------------
 // part "oracle": pool 1 of the fixture under a product of configurations
 
@@ -491,6 +656,8 @@ func c03Worker(tier string) KUnitFunc {
 			env.seq(st, u.I)
 		case "oracle":
 			env.oracleCell(st, u.I, u.J)
+		case "msgseq":
+			env.msgseq(st, u.I, u.J)
 		}
 		st.NStates = st.Sequences
 		return st
@@ -510,15 +677,22 @@ func RunC03(tier string) int {
 	for i := 0; i < 3; i++ {
 		units = append(units, c03Unit{Part: "seq", I: i, Tier: tier})
 	}
+	for i := 0; i < 3; i++ {
+		d := 2
+		if tier == "thorough" {
+			d = 3
+		}
+		units = append(units, c03Unit{Part: "msgseq", I: i, J: d, Tier: tier})
+	}
 	for i := range c03Shapes {
 		for j := range c03Prices {
 			units = append(units, c03Unit{Part: "oracle", I: i, J: j, Tier: tier})
 		}
 	}
 	sum := RunSharded("C03", tier, units, deadlineFor(tier))
-	sum.Validated = sum.Clauses["round_trip"] + sum.Clauses["split_trade"] + sum.Clauses["oracle_swap"]
-	bounds := map[string]interface{}{"grid_reserves": c03Reserves, "grid_weights": c03Weights, "grid_effective_fees(fee x (1-discount))": c03Fees, "grid_sizes": "1,2,10,R/1e6,R/1e3,R/100,R/10,R/2,0.9R,R(-1),3R", "seq_pools": "1:1 1e12/5e12 fee .3%, 80:20 4e6/5e6 fee 1%, 1:2 1e9/1e9 fee 0", "oracle_shapes(uatom,uusdc)": c03Shapes, "oracle_prices": c03Prices, "oracle_ext_liquidity_ratios": c03ExtRatios, "oracle_fees": c03OFees, "oracle_treasury_levels": c03Treasury}
-	return KConclude("C03", tier, "G+K: Cartesian input grids over the real pool functions + real keeper swaps, exact/float reference", "grid: full product reserves x weights x effective fees x trade sizes x {CalcOutAmtGivenIn, CalcInAmtGivenOut} against out*=Bo(1-y^r) (exact rationals for equal weights, float64 pow otherwise); seq: every round trip and every 2-/3-way split over the size set through the real keeper and bank on three real pools; oracle: product shape x price x external-liquidity ratio x fee x treasury level x direction x exact-in/out x 8 sizes of real keeper swaps judged on bank deltas",
+	sum.Validated = sum.Clauses["round_trip"] + sum.Clauses["split_trade"] + sum.Clauses["oracle_swap"] + sum.Clauses["msg_sequence"]
+	bounds := map[string]interface{}{"grid_reserves": c03Reserves, "grid_weights": c03Weights, "grid_effective_fees(fee x (1-discount))": c03Fees, "grid_sizes": "1,2,10,R/1e6,R/1e3,R/100,R/10,R/2,0.9R,R(-1),3R", "seq_pools": "1:1 1e12/5e12 fee .3%, 80:20 4e6/5e6 fee 1%, 1:2 1e9/1e9 fee 0", "msgseq": "per seq pool: every sequence up to depth 2 (quick) / 3 (thorough) over 16 message forms {exact-in A>B, B>A, same-pool routes A>B>A, B>A>B, A>B>A>B; exact-out A>B, B>A, same-pool A>B>A} x {reserve/10, reserve/1000}, real MsgSwapExactAmountIn/Out handlers", "oracle_shapes(uatom,uusdc)": c03Shapes, "oracle_prices": c03Prices, "oracle_ext_liquidity_ratios": c03ExtRatios, "oracle_fees": c03OFees, "oracle_treasury_levels": c03Treasury}
+	return KConclude("C03", tier, "G+K: Cartesian input grids over the real pool functions + real keeper swaps, exact/float reference", "grid: full product reserves x weights x effective fees x trade sizes x {CalcOutAmtGivenIn, CalcInAmtGivenOut} against out*=Bo(1-y^r) (exact rationals for equal weights, float64 pow otherwise); seq: every round trip and every 2-/3-way split over the size set through the real keeper and bank on three real pools; msgseq: every bounded sequence of swap messages (routing layer, same-pool multi-hop routes, exact-in/out) judged by net-balance dominance against the fee-free formula on the start reserves; oracle: product shape x price x external-liquidity ratio x fee x treasury level x direction x exact-in/out x 8 sizes of real keeper swaps judged on bank deltas",
 		[]string{"tolerance: 1 unit (+2e-18 x reserve for Dec quantisation) with equal weights, 1 unit + 1e-8 x reserve x max(1,y^r) with unequal weights", "traces_validated_against_impl counts the swaps executed through the real keeper+bank (the grid calls the same Pool methods the keeper calls)"}, sum, bounds, nil)
 }
 
